@@ -197,6 +197,56 @@ def run(run):
     chunks = [texts[i:i + 150] for i in range(0, len(texts), 150)]
     res = lib.run_impl("parse_many", [{"texts": c} for c in chunks], shards=lib.NCPU)
     outs = [o for r in res for o in r["outs"]]
+    # extension tags (a context created with extension_tags=...): the element itself, built-in elements directly inside
+    # it, it inside built-in elements and table cells
+    ext = {"foo": {"parents": ["phrasing"], "content": ["phrasing"]},
+           "gadget": {"parents": ["flow"], "content": ["flow"]}}
+    etexts, echecks = [], []
+    for _ in range(60 if quick else 1500):
+        attrs = gen_attrs(rng)
+        cid[0] += 1
+        a = (" " + render_attrs(attrs, rng)) if attrs else ""
+        etag, inner_tag, outer_tag = rng.choice([("foo", "span", "span"), ("foo", "b", "i"), ("foo", "i", "div"),
+                                                 ("gadget", "div", "div"), ("gadget", "span", "div"), ("gadget", "p", "div")])
+        shape = rng.choice(["alone", "builtin-inside", "inside-builtin", "in-cell", "both"])
+        body = "c%d" % cid[0]
+        if shape == "alone":
+            t = "<%s%s>%s</%s>" % (etag, a, body, etag)
+        elif shape == "builtin-inside":
+            t = "<%s%s>%s <%s class=\"k\">x</%s> y</%s>" % (etag, a, body, inner_tag, inner_tag, etag)
+        elif shape == "inside-builtin":
+            t = "<%s><%s%s>%s</%s></%s>" % (outer_tag, etag, a, body, etag, outer_tag)
+        elif shape == "in-cell":
+            t = "{|\n| <%s%s>%s <%s>x</%s></%s> || y\n|}" % (etag, a, body, inner_tag, inner_tag, etag)
+        else:
+            t = "<%s><%s%s>%s <%s>x</%s></%s></%s>" % (outer_tag, etag, a, body, inner_tag, inner_tag, etag, outer_tag)
+        etexts.append(t)
+        echecks.append({"tag": etag, "attrs": attrs, "id": cid[0], "inner": inner_tag if shape in ("builtin-inside", "in-cell", "both") else None,
+                        "outer": outer_tag if shape in ("inside-builtin", "both") else None})
+    eres = lib.run_impl("parse_many", [{"texts": etexts[i:i + 100], "extension_tags": ext} for i in range(0, len(etexts), 100)])
+    eouts = [o for r in eres for o in (r.get("outs") or [{"raised": r.get("outcome", "?")}] * 100)]
+    for t, exp, o in zip(etexts, echecks, eouts):
+        run.count(["ext", t], True, "extension-tag")
+        if "raised" in o:
+            run.property_failure("c03:parse-raised:%s" % o["raised"], "parse raised on %r: %r" % (t, o), t)
+            continue
+        tree = o["tree"]
+        els = [e for e in find_kind(tree, "HTML") if e.get("s") == exp["tag"]]
+        ok = len(els) == 1 and sorted(els[0].get("at", {}).items()) == sorted((k, v) for k, v in exp["attrs"]) \
+            and exp["id"] in ids_of(els[0])
+        if ok and exp["inner"]:
+            ok = any(e.get("s") == exp["inner"] for e in find_kind(els[0], "HTML") if e is not els[0])
+        if ok and exp["outer"]:
+            outs_ = [e for e in find_kind(tree, "HTML") if e.get("s") == exp["outer"]]
+            ok = any(any(x is els[0] for x in find_kind(e, "HTML")) for e in outs_)
+        import re as _re2
+        odd = [k for k, _ in exp["attrs"] if not _re2.fullmatch(r"[-a-zA-Z0-9:]+", k)]
+        if not ok and odd and not els:
+            run.property_failure("c03:html:attribute-name-outside-tokenizer-class",
+                                 "<%s> with attribute name(s) %r is not recognised as an element" % (exp["tag"], odd), t)
+        elif not ok:
+            run.property_failure("c03:extension-tag:%s" % exp["tag"],
+                                 "extension element <%s> (context created with extension_tags) parsed as %s" % (exp["tag"], json.dumps(tree)[:500]), t)
     for t, (kind, exp), o in zip(texts, checks, outs):
         if kind == "table":
             ncell = sum(len(r["cells"]) for r in exp["rows"])
@@ -224,7 +274,9 @@ def run(run):
                 and exp["id"] in ids_of(els[0])
             import re as _re
             odd = [k for k, _ in exp["attrs"] if not _re.fullmatch(r"[-a-zA-Z0-9:]+", k)]
-            if not ok and odd and not els:
+            outer = [e for e in els if exp["id"] in ids_of(e)]
+            stayed_text = any(isinstance(c, str) and ("<%s " % exp["tag"]) in c for c in tree.get("c", []))
+            if not ok and odd and not outer and stayed_text:
                 run.property_failure("c03:html:attribute-name-outside-tokenizer-class",
                                      "<%s> with attribute name(s) %r is not recognised as an element" % (exp["tag"], odd), t)
             elif not ok:
